@@ -1,5 +1,5 @@
 """Per-property orchestration: workload sizes per tier, fan-out over cores, evidence."""
-import random, json, os, itertools, collections
+import random, json, os, itertools, collections, re, traceback
 from . import common, gen_grammar as gg, pipeline, ref_lr1
 from .common import Check
 
@@ -358,6 +358,7 @@ def c02(tier):
     cfg = {'modes': [0, 3, 4], 'exh_cap': 200 if q else 500, 'exh_len': 5, 'n_rand': 60, 'n_mut': 40, 'long': (30, 200) if q else (100, 1000, 5000)}
     merge(ck, run_pipeline('C02', tier, gen_grammars('C02', tier, 256 if q else 3000, 'decorated'), cfg))
     merge(ck, common.pmap(pipeline.worker, deep_specs('C02', tier)))
+    merge(ck, common.pmap(functor_identity_worker, ['clang', 'gxx0']))
     ck.cov['rule'] = ('grammars as C01, decorated with mixed value types (two tracked types, long), rules without functor, typed terms, string terms; '
                       'every functor logs (rule, ids of its arguments in order) and returns a fresh id; the log of each parse is compared with the post-order '
                       'evaluation of the reference derivation tree; distinct_nontrivial = distinct accepted (grammar,input) pairs with >= 3 reductions')
@@ -452,6 +453,16 @@ def c16(tier):
     q = tier == 'quick'
     cfg = {'modes': [0, 1, 2, 5, 6, 8, 9, 12, 13], 'exh_cap': 100 if q else 300, 'exh_len': 4, 'n_rand': 30, 'n_mut': 40, 'long': (30, 100) if q else (100, 500), 'n_ws': 30, 'ws': 0.5}
     merge(ck, run_pipeline('C16', tier, gen_grammars('C16', tier, 160 if q else 2000, 'verbose'), cfg))
+    # lexemes of 255..5000 bytes: what the trace shows of a lexeme must not change what the term functor gets
+    from .grammar import simple
+    lg = simple('S->w , | S w ,')
+    lg.terms = [gg.Term('r', '[a-z]+', name='word', typed=True) if t.text == 'w' else t for t in lg.terms]; lg.note = 'c16:long-lexeme'
+    rnd16 = random.Random(common.seed() + 16)
+    lin = []
+    for n in (255, 256, 257, 300, 1024, 5000):
+        w = bytes(rnd16.choice(b'abcxyz') for _ in range(n))
+        lin += [w + b',', b'ab,' + w + b',cd,', w + b' ,,']
+    merge(ck, common.pmap(pipeline.worker, [{'prop': 'C16', 'grammars': [lg.to_json()], 'seed': 1, 'flavour': 'clang1', 'cfg': {'modes': [0, 1, 2, 5, 6], 'timeout': 600}, 'explicit_inputs': [[d.hex() for d in lin]]}]))
     ck.cov['rule'] = ('each (grammar,input) runs under verbose on/off x {no stream, std::ostringstream, user stream type}; results and functor logs must be identical; the verbose text is '
                       'parsed into recognised/shift/reduce/goto/recovery events and compared with the action sequence of the reference driver (states renamed through the table '
                       'isomorphism) and with the functor log; distinct_nontrivial = distinct (grammar,input) with >= 6 trace events')
@@ -474,6 +485,8 @@ def c03(tier):
     merge(ck, common.pmap(rxc.judge_batch, jobs))
     # blanks are ordinary pattern characters (the pattern front end must not skip them, whatever entry point builds the automaton)
     blanks = [(rxc.rr.parse(t), t) for t in (b'k v', b'x *y', b'end if', b'a b+c', b'( a| b)c ', b' [a-c] {2}')]
+    bigreps = [(rxc.rr.parse(t), t) for t in (b'a{128}', b'a{129}', b'[0-9a-f]{130}', b'(ab){70}', b'x[0-9]{140}y', b'(a|bc){90}', b'a{300}b')]      # copies of the repeated fragment 256 and more states apart
+    merge(ck, common.pmap(rxc.judge_batch, [('C03', bigreps, True, 'clang1')]))
     ct = blanks + rxc.gen_patterns(rnd, 64 if q else 1024, max_positions=20) + [x for x in rxc.rr.hand_corpus() if rxc.rr.positions_count(x[0]) <= 40]
     merge(ck, common.pmap(rxc.judge_ct, [('C03', c, 'clang', common.seed() + i) for i, c in enumerate(chunks(ct, 16))]))
     ck.cov['rule'] = ('patterns generated from ASTs over every documented construct (plus a fixed corpus: documentation/tests/examples, all ASTs with <= 2 primaries over {a,b}, 600 fixed-seed patterns); '
@@ -607,7 +620,7 @@ def c05(tier):
 def c08(tier):
     ck = Check('C08', tier)
     q = tier == 'quick'
-    cfg = {'modes': [0, 1, 11], 'exh_cap': 200 if q else 500, 'exh_len': 5, 'n_rand': 40, 'n_mut': 200 if q else 500, 'long': (20, 60) if q else (60, 300), 'n_ws': 6, 'n_raw': 4}
+    cfg = {'modes': [0, 1, 7, 9, 11], 'exh_cap': 200 if q else 500, 'exh_len': 5, 'n_rand': 40, 'n_mut': 200 if q else 500, 'long': (20, 60) if q else (60, 300), 'n_ws': 40, 'ws': 0.4, 'n_raw': 4}
     merge(ck, run_pipeline('C08', tier, gen_grammars('C08', tier, 160 if q else 2000, 'recovery'), cfg))
     ck.cov['rule'] = ('grammars with the error symbol in statement-list, bracketed, first/last and nested positions (fixed corpus + error rules added to random LR(1) grammars); inputs: all short strings and '
                       'derivable inputs with tokens inserted/deleted/replaced/duplicated; observed result, surviving values (functor log), error reports and verbose recovery steps are compared with a '
@@ -665,6 +678,8 @@ def c19(tier):
     ck = Check('C19', tier)
     out, n = hpc.run('asan0' if tier == 'quick' else 'asan')
     merge(ck, [out])
+    out2, n2 = hpc.run('gxx0')      # the same enumeration compiled by g++ (implicit move on return differs between compilers in C++17)
+    out2['distinct'] = []; merge(ck, [out2]); n += n2
     ck.cov['exhaustive'] = (ck.cov.get('evaluations', 0) == n)
     ck.cov['cases_in_space'] = n
     ck.cov['rule'] = ('complete enumeration, executed under ASan+UBSan: _e1.._e9 and construct<T,I> for every arity 1..9 and position with lvalue, rvalue and move-only arguments; push_back<C,A> and '
@@ -672,6 +687,31 @@ def c19(tier):
                       'so identity of the returned reference, the id the result was built from, copies/moves of every argument and of the container are observed; every case is distinct and non-trivial')
     ck.assumptions += ['reads of an argument that leave no trace (no copy, move or mutation) are not observable']
     return ck.finish(floor_events=n)
+
+def functor_identity_worker(flavour):
+    """harness/term_functor_identity.cpp: the functor objects stored in the parser are the ones that get called (they report their own address, which must lie
+    inside the parser object; views into their own state must still be valid when a rule functor reads them)"""
+    out = {'counts': collections.Counter(), 'viol': [], 'samples': [], 'distinct': [], 'incon': []}
+    try:
+        src = open(os.path.join(common.HARNESS, 'term_functor_identity.cpp')).read()
+        exe = common.build(src, flavour, name='tfi')
+        rc, so, se, to = common.run(exe, [], timeout=120, env={'ASAN_OPTIONS': 'detect_stack_use_after_return=1:detect_leaks=0:abort_on_error=0', 'UBSAN_OPTIONS': 'print_stacktrace=1:halt_on_error=1'})
+        text = so.decode('latin-1'); err = se.decode('latin-1', 'replace')
+        if 'END' not in text:
+            sig = re.findall(r'(ERROR: AddressSanitizer[^\n]*|runtime error:[^\n]*|SUMMARY: [A-Za-z]*Sanitizer[^\n]*)', err)
+            out['viol'].append((['site:functor-object@crash'], 'functor identity probe (%s build) aborted rc=%s: %s' % (flavour, rc, ' | '.join(sig[:3]) or err[-300:]), {}))
+            return out
+        for ln in text.split('\n'):
+            if not ln.startswith('R '): continue
+            out['counts']['evaluations'] += 1; out['counts']['functor_objects_probed'] += 1
+            out['distinct'].append(common.sha(ln.split()[1], flavour)[:12])
+            if 'inside-parser=1' not in ln or 'valid=1' not in ln or 'result=1' not in ln:
+                out['viol'].append((['site:functor-object@' + ln.split()[1]], 'functor identity probe (%s build): %s' % (flavour, ln[2:]), {}))
+    except common.BuildError as e:
+        out['viol'].append((['site:functor-object@compile'], 'functor identity probe does not compile (%s): %s' % (flavour, e.diag[:400]), {}))
+    except Exception:
+        out['incon'].append('functor identity worker: ' + traceback.format_exc()[-800:])
+    return out
 
 def long_lexeme_specs(prop, tier):
     """a custom lexer may return one lexeme of any length: single terms of 65535..200000 bytes, followed by more input"""
@@ -730,6 +770,7 @@ def c06(tier):
     # overflow must be the documented exception, never a write outside the stack (only crashes / sanitizer reports are judged here)
     ng = capc.nullable_rich(rnd, 12 if q else 60)
     merge(ck, common.pmap(capc.stack_worker, [{'grammar': g.to_json(), 'seed': common.seed() * 31 + i, 'n_inputs': 10 if q else 30, 'n_boundary': 16, 'safety_only': True} for i, g in enumerate(ng)]))
+    merge(ck, common.pmap(functor_identity_worker, ['asan']))      # views into a functor's own state read later by rule functors (stack-use-after-return detection on)
     merge(ck, common.pmap(sfc.regex_worker, [(common.seed() * 17 + i, 400 if q else 4000, 'asan') for i in range(8 if q else 32)]))
     ctp = rxc.gen_patterns(rnd, 48 if q else 600, max_positions=20) + rxc.rr.hand_corpus()[:24]
     merge(ck, common.pmap(rxc.judge_ct, [('C06', c, 'asan0', common.seed() + i) for i, c in enumerate(chunks(ctp, 12))]))
@@ -890,6 +931,8 @@ def c12(tier):
     # (3) user limits at need-1 / need / need+1
     lg = [g for g in gen_grammars('C12b', tier, 60 if q else 600, 'plain') if ref_lr1.build(g).lr1 and 4 <= len(ref_lr1.build(g).states) <= 40]
     rnd.shuffle(lg)
+    from .grammar import simple
+    lg = [simple('S->X t\nX->A B\nB->t | eps\nA->a | b | c | d | e | f | g | h'), simple('S->L\nL->eps | L I\nI->a O | b O\nO->eps | o')] + lg      # per-item closure tables next to the per-state cap
     merge(ck, common.pmap(capc.limits_worker, [{'grammar': g.to_json(), 'seed': common.seed() + i} for i, g in enumerate(lg[: (10 if q else 120)])]))
     # (4) fixed stacks used with cstring_buffer
     ng = capc.nullable_rich(rnd, 14 if q else 160)
@@ -919,7 +962,7 @@ def replay(prop, path):
         if isinstance(case, dict) and case.get('grammar') and prop in pipeline.JUDGES:
             from .grammar import Grammar
             g = Grammar.from_json(case['grammar'])
-            modes = {'C01': [0], 'C02': [0, 3, 4], 'C05': [0], 'C08': [0, 1, 11], 'C09': [0, 3, 4, 8, 9], 'C10': [0, 3, 4, 7, 8, 9], 'C11': [1], 'C13': [0, 20, 21, 22, 23, 24, 25, 26, 27, 28, 29, 30, 31, 32, 33], 'C14': [0], 'C16': [0, 1, 2, 5, 6, 8, 9, 12, 13], 'C18': [0, 1, 3, 4, 7, 8, 9]}[prop]
+            modes = {'C01': [0], 'C02': [0, 3, 4], 'C05': [0], 'C08': [0, 1, 7, 9, 11], 'C09': [0, 3, 4, 8, 9], 'C10': [0, 3, 4, 7, 8, 9], 'C11': [1], 'C13': [0, 20, 21, 22, 23, 24, 25, 26, 27, 28, 29, 30, 31, 32, 33], 'C14': [0], 'C16': [0, 1, 2, 5, 6, 8, 9, 12, 13], 'C18': [0, 1, 3, 4, 7, 8, 9]}[prop]
             inputs = [case['input']] if case.get('input') is not None else ['']
             spec = {'prop': prop, 'grammars': [g.to_json()], 'seed': 1, 'flavour': 'clang', 'cfg': {'modes': modes, 'timeout': 300}, 'explicit_inputs': [inputs]}
             outs = [pipeline.worker(spec)]
